@@ -294,9 +294,24 @@ def compare_stable(a, b, path, out):
     for f in ("name", "prefix"):
         if getattr(a, f) != getattr(b, f):
             bad(f, getattr(a, f), getattr(b, f))
-    for f in ("attributes", "extras", "nsmap"):
+    for f in ("attributes", "nsmap"):
         if dict(getattr(a, f)) != dict(getattr(b, f)):
             bad(f, dict(getattr(a, f)), dict(getattr(b, f)))
+
+    def by_uri(n):
+        # qualified attributes are compared by expanded name: when two in-scope prefixes are bound to one URI either
+        # prefix may be used for the key (the import oracle allows that too)
+        out = {}
+        for k, v in n.extras.items():
+            if ":" in k:
+                pf, local = k.split(":", 1)
+                uri = xmlinfo.XML_NS if pf == "xml" else n.nsmap.get(pf, "unbound:" + pf)
+                out[(uri, local)] = v
+            else:
+                out[(None, k)] = v
+        return out
+    if by_uri(a) != by_uri(b) or len(a.extras) != len(b.extras):
+        bad("extras", dict(a.extras), dict(b.extras))
     if ustrip(a.content) != ustrip(b.content):
         bad("content", a.content, b.content)
     if ustrip(a.tail) != ustrip(b.tail):
